@@ -480,6 +480,16 @@ func scenarioPerm(seed int64, idx int) ScenarioOut {
 		}
 	}
 	parked := 0
+	if idx%3 == 1 { // an orphan whose parent never arrives: it must be retried at most maxRepeats times and then dropped
+		var ph [32]byte
+		pr.Read(ph[:])
+		t := craftTrx(s.recvRich, s.users[2].Address(), "never", nil, spice.Melange{Currency: 1}, s.now())
+		ov, _ := accountant.NewVertex(t, ph, ph, 3, sealer)
+		w.remember(&ov)
+		if dst.add(&ov, -1) == "RParentMissing" {
+			dst.stats["perm.hopeless_orphan"]++
+		}
+	}
 	for k, i := range perm {
 		cls := dst.add(set[i], -1)
 		if cls == "RParentMissing" {
